@@ -190,72 +190,84 @@ namespace occa {
 
     inline primitive& operator = (const bool value_) {
       type = primitiveType::bool_;
+      source.clear();
       value.bool_ = (bool) value_;
       return *this;
     }
 
     inline primitive& operator = (const uint8_t value_) {
       type = primitiveType::uint8_;
+      source.clear();
       value.uint8_ = (uint8_t) value_;
       return *this;
     }
 
     inline primitive& operator = (const uint16_t value_) {
       type = primitiveType::uint16_;
+      source.clear();
       value.uint16_ = (uint16_t) value_;
       return *this;
     }
 
     inline primitive& operator = (const uint32_t value_) {
       type = primitiveType::uint32_;
+      source.clear();
       value.uint32_ = (uint32_t) value_;
       return *this;
     }
 
     inline primitive& operator = (const uint64_t value_) {
       type = primitiveType::uint64_;
+      source.clear();
       value.uint64_ = (uint64_t) value_;
       return *this;
     }
 
     inline primitive& operator = (const int8_t value_) {
       type = primitiveType::int8_;
+      source.clear();
       value.int8_ = (int8_t) value_;
       return *this;
     }
 
     inline primitive& operator = (const int16_t value_) {
       type = primitiveType::int16_;
+      source.clear();
       value.int16_ = (int16_t) value_;
       return *this;
     }
 
     inline primitive& operator = (const int32_t value_) {
       type = primitiveType::int32_;
+      source.clear();
       value.int32_ = (int32_t) value_;
       return *this;
     }
 
     inline primitive& operator = (const int64_t value_) {
       type = primitiveType::int64_;
+      source.clear();
       value.int64_ = (int64_t) value_;
       return *this;
     }
 
     inline primitive& operator = (const float value_) {
       type = primitiveType::float_;
+      source.clear();
       value.float_ = value_;
       return *this;
     }
 
     inline primitive& operator = (const double value_) {
       type = primitiveType::double_;
+      source.clear();
       value.double_ = value_;
       return *this;
     }
 
     inline primitive& operator = (void *value_) {
       type = primitiveType::ptr;
+      source.clear();
       value.ptr = (char*) value_;
       return *this;
     }
